@@ -657,7 +657,10 @@ def run_scenario(scn, chooser, max_steps=200000):
             setattr(mod, name, real_popen)
         for proc in live:
             # a real child still there: blocked for good (a full pipe)
-            if proc.returncode is None and real_popen.poll(proc) is None:
+            if not hasattr(proc, '_waitpid_lock'):
+                continue            # (never got as far as having a child)
+            if getattr(proc, 'returncode', 0) is None and \
+                    real_popen.poll(proc) is None:
                 _STATE['real_blocked'] = True
                 proc.kill()
                 try:
